@@ -295,6 +295,150 @@ func c12RunOne(s c12Sched) (rprobs []c12Problem, rst c12Stats, bubble string) {
 	return
 }
 
+// c12Progress counts finished schedules and bursts (see the stall guard in the monitor's body); -1 while
+// a leg runs that has its own watchdog.
+var c12Progress atomic.Int64
+
+// c12RealTime: bursts of Current() in real time at the instant a renewal is due.  In a synctest
+// bubble the clock stands still while goroutines run, so callers of one burst all read the same
+// instant; here they read the real clock microseconds apart and in an order that need not be the
+// order in which they get the provider's lock.  The provider is aged through its verif hook so
+// that every burst meets a due renewal.  Oracle: every key a caller was handed can be fetched
+// right afterwards, with the same value (it must stay usable for two more days); a burst sees at
+// most one renewal; identifiers never go back and never name two keys.
+func c12RealTime(r *ev.Run) {
+	if r.Only() != "" && r.Only() != "realtime" {
+		return
+	}
+	p := ntske.NewProvider()
+	values := map[int]string{}
+	last := p.Current().ID
+	rounds := r.Pick(400, 20000)
+	bursts := 0
+	for k := 0; k < rounds; k++ {
+		age := []time.Duration{24*time.Hour + time.Nanosecond, 24*time.Hour + time.Microsecond, 25 * time.Hour, 24 * time.Hour, 23*time.Hour + 59*time.Minute}[k%5]
+		p.VerifAge(age)
+		n := 4 + k%13
+		got := make([]ntske.Key, n)
+		var ready, wg sync.WaitGroup
+		var gate atomic.Bool
+		ready.Add(n)
+		wg.Add(n)
+		for g := 0; g < n; g++ {
+			go func(g int) {
+				defer wg.Done()
+				ready.Done()
+				for !gate.Load() { // spinning rendezvous: all callers enter the provider together
+				}
+				got[g] = p.Current()
+			}(g)
+		}
+		ready.Wait()
+		gate.Store(true)
+		wg.Wait()
+		c12Progress.Add(1)
+		bursts++
+		ids := map[int]bool{}
+		w := map[string]any{"burst": k, "callers": n, "aged_by": age.String()}
+		for _, key := range got {
+			ids[key.ID] = true
+			if v, ok := values[key.ID]; ok && v != string(key.Value) {
+				r.Violation("Provider.Current|wrong-value:one identifier names two keys|burst in real time at a due renewal", "realtime", w)
+				return
+			}
+			values[key.ID] = string(key.Value)
+			if key.ID < last {
+				r.Violation("Provider.Current|wrong-value:identifier older than one handed out before|burst in real time at a due renewal", "realtime", w)
+				return
+			}
+		}
+		for id := range ids {
+			if id > last {
+				last = id
+			}
+			k2, ok := p.Get(id)
+			if !ok || string(k2.Value) != values[id] {
+				w["identifier"], w["identifiers_handed_out_in_this_burst"] = id, fmt.Sprint(ids)
+				r.Violation("Provider.Get|wrong-value:key handed out by Current a moment ago cannot be fetched|burst in real time at a due renewal", "realtime", w)
+				return
+			}
+		}
+		if len(ids) > 2 {
+			w["identifiers_handed_out_in_this_burst"] = fmt.Sprint(ids)
+			r.Violation("Provider.Current|wrong-value:more than one renewal in one burst|burst in real time at a due renewal", "realtime", w)
+			return
+		}
+	}
+	// the renewal instant falls into the middle of a burst: callers that still see the old key as current
+	// and callers that find the renewal due are inside the provider at the same time
+	rolling := r.Pick(150, 5000)
+	for k := 0; k < rolling; k++ {
+		rp := ntske.NewProvider()
+		rp.VerifAge(24*time.Hour - time.Duration(100+k%400)*time.Microsecond)
+		n := 4 + k%13
+		var wg sync.WaitGroup
+		var gate atomic.Bool
+		var bad atomic.Int64
+		wg.Add(n)
+		for g := 0; g < n; g++ {
+			go func() {
+				defer wg.Done()
+				for !gate.Load() {
+				}
+				lastID := 0
+				for t0 := time.Now(); time.Since(t0) < time.Millisecond; {
+					key := rp.Current()
+					if key.ID < lastID {
+						bad.Add(1)
+					}
+					lastID = key.ID
+					if _, ok := rp.Get(key.ID); !ok {
+						bad.Add(1)
+					}
+				}
+			}()
+		}
+		done := make(chan struct{})
+		go func() { wg.Wait(); close(done) }()
+		gate.Store(true)
+		c12Progress.Add(1)
+		select {
+		case <-done:
+		case <-time.After(30 * time.Second):
+			r.Violation("Provider.Current|hang:callers of the key provider are stuck|renewal falling due in the middle of a burst in real time", "realtime",
+				map[string]any{"round": k, "callers": n})
+			return
+		}
+		if bad.Load() > 0 {
+			r.Violation("Provider.Current|wrong-value:identifier went back, or a key just handed out cannot be fetched|renewal falling due in the middle of a burst in real time", "realtime",
+				map[string]any{"round": k, "callers": n, "events": bad.Load()})
+			return
+		}
+	}
+	r.Class("renewal falling due in the middle of a burst in real time")
+	// a long life: more renewals than a 16-bit counter holds, one after the other
+	lp := ntske.NewProvider()
+	prev := lp.Current().ID
+	long := r.Pick(70000, 300000)
+	for k := 0; k < long; k++ {
+		lp.VerifAge(24*time.Hour + time.Duration(1+k%1000)*time.Millisecond)
+		id := lp.Current().ID
+		if k%1000 == 0 {
+			c12Progress.Add(1)
+		}
+		if id <= prev {
+			r.Violation("Provider.Current|wrong-value:identifier repeats or goes back after many renewals|one renewal after the other", "realtime",
+				map[string]any{"renewal": k + 1, "identifier": id, "previous_identifier": prev})
+			return
+		}
+		prev = id
+	}
+	r.Eval(int64(bursts + long))
+	r.Class(fmt.Sprintf("%d renewals in a row: identifiers strictly increasing", long))
+	r.Class("real-time bursts at a due renewal")
+	r.Set("realtime_bursts", bursts)
+}
+
 func init() {
 	// the provider inside the real listeners: what the NTP and NTS-KE servers seal new cookies
 	// with and how long they honour old ones while the keys age (shared with C11, leg C)
@@ -313,10 +457,26 @@ func init() {
 				r.Inconclusive("server leg did not finish: " + o.Stderr)
 			}
 		}
+		// callers of the provider that block each other for good stop every schedule they are part of (a
+		// mutex wait is not a durable block for synctest, the bubble simply never ends): no progress for
+		// two minutes of real time is reported as a hang, and the run ends there
+		go func() {
+			last, lastAt := c12Progress.Load(), time.Now()
+			for {
+				time.Sleep(time.Second)
+				if v := c12Progress.Load(); v != last {
+					last, lastAt = v, time.Now()
+				} else if v >= 0 && time.Since(lastAt) > 2*time.Minute {
+					r.Violation("Provider|hang:callers of the key provider are stuck", "stall", map[string]any{"schedules_and_bursts_finished": v})
+					r.Finish("(ended by the stall guard)", 0)
+				}
+			}
+		}()
 		n := r.Pick(400, 30000)
 		var tot c12Stats
 		var tmu sync.Mutex
 		parallel(n, func(w, i int) {
+			defer c12Progress.Add(1)
 			id := fmt.Sprintf("s%d", i)
 			rng := r.Rng("c12/" + id)
 			s := c12Gen(rng)
@@ -358,6 +518,7 @@ func init() {
 				r.Sample(map[string]any{"case": id, "schedule": s, "current_calls": st.current, "renewals": st.renewals, "span_days": st.maxSpanDays})
 			}
 		})
+		c12RealTime(r)
 		r.CollectRaces(true, "net/ntske")
 		r.Set("events_current", tot.current)
 		r.Set("events_get_ok", tot.getOK)
